@@ -80,16 +80,19 @@ def finish(prop, tier, seed, units, results, wall, verbose=False, partial=False)
                     violations.append(rec)
     os.makedirs(os.path.join(HERE, 'replays', prop), exist_ok=True)
     reported = set()
+    sound_refuted = {(r['_task']['unit'], r['clause']) for r in violations if not r.get('candidate')}
     for rec in violations:
         key = (rec['_task']['unit'], rec['_task']['case'].split('|')[0], rec['clause'])
         if key in reported and not verbose:
             continue
-        reported.add(key)
         rp = RP.replay_record(rec.get('function'), rec.get('counterexample'), rec.get('replay_info'), rec.get('clause'))
         if rec.get('candidate') and rp['status'] != 'confirmed':
             # a candidate model (quantifier-free part only) that does not replay is not a refutation: undecided
-            undecided.append(rec)
+            # (unless a sound refutation of the same clause exists, e.g. from the bounded mode)
+            if (rec['_task']['unit'], rec['clause']) not in sound_refuted:
+                undecided.append(rec)
             continue
+        reported.add(key)
         path = os.path.join('replays', prop, safe_name(rec['name']) + '.json')
         json.dump({'property': prop, 'obligation': rec['name'], 'function': rec.get('function'), 'mode': rec['mode'],
                    'clause': rec['clause'], 'counterexample': rec.get('counterexample'), 'replay': rp, 'replay_info': rec.get('replay_info'),
